@@ -64,15 +64,24 @@ def sh(cmd, timeout=600, cwd=None, env=None):
 
 
 class Lock:
+    """Build lock (flock on .build/lock), re-entrant within one process."""
+    _depth = 0
+    _file = None
+
     def __enter__(self):
-        BUILD.mkdir(exist_ok=True)
-        self.f = open(BUILD / 'lock', 'w')
-        fcntl.flock(self.f, fcntl.LOCK_EX)
+        if Lock._depth == 0:
+            BUILD.mkdir(exist_ok=True)
+            Lock._file = open(BUILD / 'lock', 'w')
+            fcntl.flock(Lock._file, fcntl.LOCK_EX)
+        Lock._depth += 1
         return self
 
     def __exit__(self, *a):
-        fcntl.flock(self.f, fcntl.LOCK_UN)
-        self.f.close()
+        Lock._depth -= 1
+        if Lock._depth == 0:
+            fcntl.flock(Lock._file, fcntl.LOCK_UN)
+            Lock._file.close()
+            Lock._file = None
 
 
 # ----------------------------------------------------------------------------
